@@ -254,6 +254,33 @@ def check_tree(ctx, t, dev_solve=None, with_model_lines=None):
                 g, w = np.asarray(got[1]), np.asarray(want[1])
                 if g.shape != w.shape or not np.array_equal(g, w, equal_nan=True):
                     fail("pointwise", f"{show(t)} evaluates to {g.tolist()} but pointwise arithmetic of the operands gives {w.tolist()}")
+    # the same coordinate BUFFERS refilled / shifted in place between two evaluations at the same time: the answer is that of
+    # the coordinates now in the buffers
+    if td and depth_of(t) <= 2:
+        def direct(u, x, y, z, tt):
+            if isinstance(u, str):
+                return leaf_value(u, x, y, z, tt)
+            return OPS[u[0]][1](direct(u[1], x, y, z, tt), direct(u[2], x, y, z, tt))
+
+        xb, yb, zb = X.copy(), Y.copy(), Z.copy()
+        try:
+            outcome(p, xb, yb, zb, 0.4)
+            xb += 0.37
+            yb -= 0.21
+            zb[:] = Z2
+            got = outcome(p, xb, yb, zb, 0.4)
+            with np.errstate(all="ignore"):
+                want = np.asarray(direct(t, xb, yb, zb, 0.4))
+            if got[0] == "val" and not np.allclose(np.asarray(got[1]), want, rtol=1e-12, atol=0, equal_nan=True):
+                fail("pointwise:buffers-changed-in-place", f"{show(t)} evaluated again at the same time after its coordinate arrays were changed in place returns the values of the earlier points")
+            ctx.count("td_trees_evaluated_on_buffers_changed_in_place")
+        except Exception:  # noqa: exceptions of the arithmetic itself are compared above
+            pass
+        finally:
+            try:
+                p._clear_cache()
+            except Exception:  # noqa
+                pass
     # structural equality
     try:
         q = build(t)
